@@ -22,6 +22,9 @@ CRIT = [
     {"max_x_position_list": [12.5, 30.0, 20.0, 30.0], "max_y_position_list": [30.0, 12.5, 20.0, 30.0]},
 ]
 PF = [1.0, 2.0, 0.5]
+# general (non-planar) ego rotations: integer 4-vectors (w, x, y, z) with integer norm
+GEN_EGO = [((10, 1, 2, 4), 11), ((14, 2, 5, 0), 15), ((6, 2, 3, 0), 7), ((1, 2, 2, 4), 5), ((2, 3, 6, 0), 7), ((4, 2, 5, 6), 9), ((8, 1, 0, 4), 9),
+           ((1, 1, 1, 1), 2), ((12, 3, 4, 0), 13), ((2, 10, 11, 0), 15)]
 
 G = lambda u, lab, x, y, cs=(1.0, 0.0): {"label": lab, "pos": [x, y, 0.0], "size": [2.0, 4.0, 1.5], "yaw_cs": list(cs), "uuid": u, "points": 10}
 E = lambda u, lab, x, y, cs=(1.0, 0.0), conf=0.5: {"label": lab, "pos": [x, y, 0.0], "size": [2.0, 4.0, 1.5], "yaw_cs": list(cs), "uuid": u, "conf": conf}
@@ -180,6 +183,8 @@ class AnalyzerCorr(Corr):
         cfg = 3 if ci % 5 == 4 else ([0, 1, 2][ci % 3] if ci % 7 else 1)
         scale = CFGS[cfg][2]
         frame = "map" if ci % 2 else "base_link"
+        clean = ci % 6 in (2, 3)               # stream without FP pairs on ordinary ground truths (outside the F11 class)
+        general_ego = frame == "map" and ci % 4 == 1
         n_scenes = 1 if rng.random() < 0.6 else 2
         scenes = []
         for s in range(n_scenes):
@@ -203,6 +208,33 @@ class AnalyzerCorr(Corr):
                                 if e["uuid"] == "t" + g["uuid"][1:]:
                                     e["pos"][0] += g["pos"][0] - old[0]
                                     e["pos"][1] += g["pos"][1] - old[1]
+                if clean:
+                    # no estimate that is paired with an ordinary ground truth and then fails: every generated pair is close (<= 0.73 m) and
+                    # carries the ground truth's label, stray estimates carry a label no ground truth of the frame has
+                    by = {g["uuid"]: g for g in fr["gts"]}
+                    gl = {g["label"] for g in fr["gts"]}
+                    keep = []
+                    for e in fr["ests"]:
+                        g = by.get("g" + e["uuid"][1:]) if e["uuid"].startswith("t") else None
+                        if g is not None:
+                            dx, dy = rng.choice([(0, 0), (0.25, 0), (0, 0.5), (0.375, 0.5), (0.5, -0.25), (-0.5, 0.5)])
+                            e["pos"] = [g["pos"][0] + dx, g["pos"][1] + dy, g["pos"][2]]
+                            e["label"] = g["label"] if g["label"] != "false_positive" else e["label"]
+                            keep.append(e)
+                        else:
+                            free = [l for l in MC.TARGETS if l not in gl]
+                            if free:
+                                e["label"] = rng.choice(free)
+                                keep.append(e)
+                    fr["ests"] = keep
+                # velocities (k/8 lattice; some objects without an estimated velocity, as the loader yields them)
+                for o in fr["gts"] + fr["ests"]:
+                    o["vel"] = None if rng.random() < 0.12 else [rng.randint(-80, 80) / 8, rng.randint(-80, 80) / 8, 0.0]
+                if general_ego and fr.get("ego") is not None:
+                    # a general ego rotation (roll and pitch): rational point of S^3, either sign
+                    v, n = rng.choice(GEN_EGO)
+                    sg = rng.choice((1, -1))
+                    fr["ego"]["q"] = [sg * c / n for c in v]
                 frames.append(fr)
             MC.assign_confidences(frames, rng, distinct=True)
             scenes.append(frames)
@@ -215,8 +247,11 @@ class AnalyzerCorr(Corr):
         apool = [{"scene": rng.randrange(2)}, {"area": rng.randrange(3)}, {"label": rng.choice(labels)},
                  {"distance": [rng.choice([0.0, 5.0, 10.0]), rng.choice([20.0, 40.5, 60.0])]},
                  {"scene": 0, "distance": [0.0, 35.0]}, {"frame": rng.randrange(2), "area": [0, 1, 4]}]
-        return {"stream": "random", "frame": frame, "div": [1, 3, 9][(ci // 3) % 3], "cfg": cfg, "crit": rng.randrange(len(CRIT)), "pf": rng.randrange(len(PF)),
-                "scenes": scenes, "sels": sels, "analyze": [{}] + rng.sample(apool, 2)}
+        div = [1, 3, 9][(ci // 3) % 3]
+        return {"stream": "clean" if clean else "random", "frame": frame, "div": div, "cfg": cfg, "crit": rng.randrange(len(CRIT)),
+                "pf": rng.randrange(2) if clean else rng.randrange(len(PF)),
+                "scenes": scenes, "sels": sels, "analyze": [{}] + rng.sample(apool, 2),
+                "general_ego": general_ego, "readd": ci % 3 == 0, "div_default": div == 1 and ci % 2 == 0}
 
     # ------------------------------------------------------------------ implementation
     def run_impl(self, case):
@@ -232,7 +267,12 @@ class AnalyzerCorr(Corr):
         from perception_eval.tool import PerceptionAnalyzer3D
 
         mgr, scene_results = evaluate_scenes(case)
-        an = PerceptionAnalyzer3D(mgr.evaluator_config, num_area_division=case["div"])
+        from perception_eval.common.status import MatchingStatus, get_scene_rates
+
+        if case.get("div_default") and case["div"] == 1:
+            an = PerceptionAnalyzer3D(mgr.evaluator_config)         # the documented default: one area
+        else:
+            an = PerceptionAnalyzer3D(mgr.evaluator_config, num_area_division=case["div"])
         obs = {"facts": [[frame_facts(r) for r in rs] for rs in scene_results],
                "areas": [[float(a), float(b), float(c), float(d)] for (a, b), (c, d) in zip(an.upper_rights.tolist(), an.bottom_lefts.tolist())],
                "max_xy": [float(mgr.evaluator_config.evaluation_config_dict.get("max_x_position", 100.0)),
@@ -242,6 +282,14 @@ class AnalyzerCorr(Corr):
         if "error" in added:
             obs["add_error"] = added["error"]
             return obs
+        if case.get("readd"):
+            # the same analyzer cleared and filled again: everything below reads the second table, which must be the first one
+            sig = lambda: [an.df.to_json(), an.num_scene, an.num_frame]
+            first = sig()
+            an.clear()
+            cleared = [len(an.df), an.num_scene, an.num_frame]
+            again = guarded(lambda: [an.add(rs) for rs in scene_results] and None)
+            obs["readd"] = {"cleared": cleared, "same": "error" not in again and sig() == first, "error": again.get("error")}
         # read-only accessors first: none of them may change the table the analysis reads
         if len(an.df) > 0 and len(case["scenes"][0]) % 2 == 1:
             guarded(lambda: (an.sortby("x"), an.sortby(["y", "x"], ascending=True), an.sortby("confidence"), an.head(3), an.tail(2), an.keys(),
@@ -249,7 +297,7 @@ class AnalyzerCorr(Corr):
             obs["accessors_first"] = True
         df = an.df
         obs["num_scene"], obs["num_frame"] = an.num_scene, an.num_frame
-        cols = ["uuid", "label", "x", "y", "yaw", "status", "area", "frame", "scene", "distance", "width", "length"]
+        cols = ["uuid", "label", "x", "y", "yaw", "status", "area", "frame", "scene", "distance", "width", "length", "vx", "vy", "speed"]
         rows = []
         if len(df) > 0:
             sp = df[cols].to_dict("split")
@@ -260,12 +308,20 @@ class AnalyzerCorr(Corr):
                 else:
                     r = {"uuid": d["uuid"], "label": d["label"], "x": float(d["x"]), "y": float(d["y"]), "yaw": float(d["yaw"]), "status": d["status"],
                          "area": None if pd.isnull(d["area"]) else int(d["area"]), "frame": int(d["frame"]), "scene": int(d["scene"]),
-                         "distance": float(d["distance"]), "width": float(d["width"]), "length": float(d["length"])}
+                         "distance": float(d["distance"]), "width": float(d["width"]), "length": float(d["length"]),
+                         "vx": fnum(d["vx"]), "vy": fnum(d["vy"]), "speed": fnum(d["speed"])}      # oracle only (None = NaN)
                 rows.append([int(i), side, r])
         obs["rows"] = rows
         obs["props"] = guarded(lambda: [an.num_ground_truth, an.num_estimation, an.num_tp, an.num_fp, an.num_tn, an.num_fn])
         obs["sels"] = [guarded(lambda s=s: [an.get_num_ground_truth(**s), an.get_num_estimation(**s), an.get_num_tp(**s), an.get_num_fp(**s),
                                             an.get_num_tn(**s), an.get_num_fn(**s)]) for s in case["sels"]]
+        # --- oracle-only observations (the model does not see them)
+        plain = [s for s in case["sels"] if "status" not in s]
+        obs["status_num"] = guarded(lambda: {"str": [an.get_status_num(st) for st in STATUS],
+                                             "enum": [an.get_status_num(MatchingStatus[st]) for st in STATUS],
+                                             "sels": [[an.get_status_num(st if k % 2 else MatchingStatus[st], **s) for st in STATUS]
+                                                      for k, s in enumerate(plain)]})
+        obs["errors_v"] = {c: guarded(lambda c=c: [fnum(v) for v in an.calculate_error(c)]) for c in ("vx", "vy", "speed")}
         obs["errors"] = {c: guarded(lambda c=c: [float(v) for v in an.calculate_error(c)]) for c in COLS + ["distance"]}
         obs["errors_xy"] = guarded(lambda: [[float(a), float(b)] for a, b in np.asarray(an.calculate_error(["x", "y"])).reshape(-1, 2)])
         labels = ["ALL"] + list(an.target_labels)
@@ -284,6 +340,11 @@ class AnalyzerCorr(Corr):
                     return None
                 return {"ratio": ratios_of(res.score, labels), "summary": summaries_of(res.error, labels), "cm": cm_of(res.confusion_matrix)}
             obs["analyze"].append(guarded(one))
+        inf = lambda v: "inf" if v == float("inf") else float(v)
+        sts_all = [get_object_status(rs) for rs in scene_results]
+        obs["status_rates"] = [[[s.uuid, [inf(r.rate) for r in s.get_status_rates()], [str(r.status) for r in s.get_status_rates()]] for s in sts]
+                               for sts in sts_all]
+        obs["scene_rates"] = [[inf(v) for v in get_scene_rates(sts)] for sts in sts_all] + [[inf(v) for v in get_scene_rates([])]]
         obs["status"] = [[[s.uuid, list(s.total_frame_nums), list(s.tp_frame_nums), list(s.fp_frame_nums), list(s.tn_frame_nums), list(s.fn_frame_nums)]
                           for s in get_object_status(rs)] for rs in scene_results]
         return obs
@@ -465,12 +526,38 @@ class AnalyzerCorr(Corr):
     def distribution(self, cases, obs):
         d = {"frames": {"base_link": 0, "map": 0}, "div": {1: 0, 3: 0, 9: 0}, "cfg": {0: 0, 1: 0, 2: 0, 3: 0}, "mixed_label_tp_cases(F15 class)": 0, "read_only_accessors_called_first": 0, "scenes2": 0, "n_frames": 0, "rows": 0,
              "tp": 0, "fp_with_gt": 0, "fp_without_gt": 0, "tn": 0, "fn": 0, "fp_pairs_with_ordinary_gt(F11 class)": 0, "frames_in_F11_class": 0,
-             "rows_area_none": 0, "rows_on_grid_line": 0, "empty_tables": 0, "yaw_ambiguous_cases": 0, "fp_labelled_gt_rows": 0, "analyze_empty": 0}
+             "rows_area_none": 0, "rows_on_grid_line": 0, "empty_tables": 0, "yaw_ambiguous_cases": 0, "fp_labelled_gt_rows": 0, "analyze_empty": 0,
+             "streams": {}, "cases_with_general_ego_rotation(roll/pitch)": 0, "rows_under_general_ego_rotation": 0,
+             "cases_cleared_and_filled_again": 0, "cases_with_default_num_area_division": 0, "cases_outside_F11_class_with_rows": 0,
+             "objects_without_velocity": 0, "objects_with_velocity": 0, "velocity_rows_checked(base_link)": 0,
+             "get_status_num_calls": 0, "status_rates": {"records": 0, "rate_inf(status_without_frame)": 0}, "analyze_scene_or_frame_rate_checks": 0}
         for c, o in zip(cases, obs):
             if not isinstance(o, dict) or "facts" not in o:
                 continue
             d["frames"][c["frame"]] += 1
             d["div"][c["div"]] += 1
+            d["streams"][c["stream"]] = d["streams"].get(c["stream"], 0) + 1
+            d["cases_with_general_ego_rotation(roll/pitch)"] += bool(c.get("general_ego"))
+            d["cases_cleared_and_filled_again"] += "readd" in o
+            d["cases_with_default_num_area_division"] += bool(c.get("div_default") and c["div"] == 1)
+            for fr in [fr for sc in c["scenes"] for fr in sc]:
+                for ob in fr["gts"] + fr["ests"]:
+                    if "vel" in ob:
+                        d["objects_without_velocity" if ob["vel"] is None else "objects_with_velocity"] += 1
+            if o.get("rows"):
+                d["cases_outside_F11_class_with_rows"] += not any(g is not None and not g["isfp"] for sc in o["facts"] for f in sc for _, g in f["fp"])
+                if c.get("general_ego"):
+                    d["rows_under_general_ego_rotation"] += len(o["rows"]) // 2
+                if c["frame"] == "base_link":
+                    d["velocity_rows_checked(base_link)"] += sum(1 for _, _, r in o["rows"] if r is not None)
+            if isinstance(o.get("status_num"), dict) and "ok" in o["status_num"]:
+                d["get_status_num_calls"] += 8 + 4 * len(o["status_num"]["ok"]["sels"])
+            for sts in o.get("status_rates", []):
+                for _, rr, _ in sts:
+                    d["status_rates"]["records"] += 1
+                    d["status_rates"]["rate_inf(status_without_frame)"] += sum(1 for r in rr if r == "inf")
+            d["analyze_scene_or_frame_rate_checks"] += sum(1 for kw, g in zip(c["analyze"], o.get("analyze", []))
+                                                           if kw and not (set(kw) - {"scene", "frame"}) and "ok" in g and g["ok"] is not None)
             d["cfg"][c["cfg"]] += 1
             d["scenes2"] += len(c["scenes"]) == 2
             d["yaw_ambiguous_cases"] += self.ambiguous(o)
@@ -591,7 +678,7 @@ def oracle(case, obs):
             if so is not None:
                 yaw = math.atan2(so["yaw_cs"][1], so["yaw_cs"][0])
                 if abs(r["x"] - so["pos"][0]) > 1e-6 or abs(r["y"] - so["pos"][1]) > 1e-6 or ang_diff(r["yaw"], yaw) > 1e-6:
-                    return (f"row pair {k} {side} ({r['uuid']}, {case['frame']} frame): x/y/yaw {r['x']:.6f}/{r['y']:.6f}/{r['yaw']:.6f} are not the ego-frame "
+                    return (f"row pair {k} {side} ({r['uuid']}, {case['frame']} frame{', general ego rotation' if case.get('general_ego') else ''}): x/y/yaw {r['x']:.6f}/{r['y']:.6f}/{r['yaw']:.6f} are not the ego-frame "
                             f"pose {so['pos'][0]}/{so['pos'][1]}/{yaw:.6f}")
                 if abs(r["width"] - so["size"][0]) > 1e-9 or abs(r["length"] - so["size"][1]) > 1e-9:
                     return f"row pair {k} {side}: width/length {r['width']}/{r['length']} differ from the object's {so['size'][:2]}"
@@ -728,6 +815,9 @@ def oracle(case, obs):
             want_pairs = analyze_pairs(kw, expected, pairs)
             if want_pairs is not None and sum(map(sum, a["cm"]["m"])) != want_pairs:
                 return f"analyze({kw}).confusion_matrix sums to {sum(map(sum, a['cm']['m']))}, {want_pairs} paired rows are selected"
+    msg = oracle_extra(case, obs, frames, expected, pairs, paired, spec)
+    if msg:
+        return msg
     # 8. per-object status tallies: frames where the ground truth is TP / FP / TN / FN, each ground truth once per frame
     f11_status = None
     for s, (sc, sts) in enumerate(zip(facts, obs["status"])):
@@ -771,6 +861,81 @@ def oracle(case, obs):
             # the only admissible surplus is the F11 one (counted in `want` through the pass/fail lists themselves)
             return f"get_num_ground_truth({s}) = {g['ok'][0]} but the pass/fail lists give {want[0]}"
     return f11_status or f15_msg
+
+
+def oracle_extra(case, obs, frames, expected, pairs, paired, spec):
+    """clauses added by the strengthening round (all on oracle-only observations)"""
+    # a. an analyzer cleared and filled again holds the same table
+    ra = obs.get("readd")
+    if ra is not None:
+        if ra["cleared"] != [0, 0, 0]:
+            return f"clear() leaves len(df) / num_scene / num_frame = {ra['cleared']}"
+        if not ra["same"]:
+            return f"after clear() the same frame results give another table (scene numbers, rows or counters differ){': ' + ra['error'] if ra['error'] else ''}"
+    # b. get_status_num(status) = the counter of that status, for the string and the enum spelling, with and without a selection
+    sn = obs["status_num"]
+    if "error" in sn:
+        return f"get_status_num raised {sn['error']}"
+    for k in ("str", "enum"):
+        if sn["ok"][k] != obs["props"]["ok"][2:6]:
+            return f"get_status_num(TP/FP/TN/FN as {k}) = {sn['ok'][k]} but num_tp/fp/tn/fn = {obs['props']['ok'][2:6]}"
+    plain = [(s, g) for s, g in zip(case["sels"], obs["sels"]) if "status" not in s]
+    for (s, g), got in zip(plain, sn["ok"]["sels"]):
+        if got != g["ok"][2:6]:
+            return f"get_status_num(TP/FP/TN/FN, {s}) = {got} but get_num_tp/fp/tn/fn({s}) = {g['ok'][2:6]}"
+    # c. velocity columns and their errors (ego-frame renderings only: the property text fixes the frame of positions and yaw only)
+    if case["frame"] == "base_link":
+        def vel(s_, fn_, o):
+            so = spec.get((s_, fn_, o["uuid"]))
+            return None if so is None or "vel" not in so else (so["vel"],)
+        for k, ((i, gr, er), (s_, fn_, st, g, e)) in enumerate(zip(pairs, expected)):
+            for side, r, o in (("ground_truth", gr, g), ("estimation", er, e)):
+                v = vel(s_, fn_, o) if r is not None else None
+                if v is None:
+                    continue
+                want = [None, None, None] if v[0] is None else [v[0][0], v[0][1], math.hypot(v[0][0], v[0][1])]
+                got = [r["vx"], r["vy"], r["speed"]]
+                if any((a is None) != (b is None) or (a is not None and abs(a - b) > 1e-9) for a, b in zip(got, want)):
+                    return f"row pair {k} {side} ({r['uuid']}): vx/vy/speed {got} but the object's velocity is {v[0]} (None = NaN)"
+        pv = [(vel(s_, fn_, g), vel(s_, fn_, e)) for s_, fn_, st, g, e in expected if g is not None and e is not None]
+        if all(a is not None and b is not None for a, b in pv):
+            for ci, c in enumerate(("vx", "vy", "speed")):
+                g_ = obs["errors_v"][c]
+                if "error" in g_:
+                    return f"calculate_error({c}) raised {g_['error']}"
+                comp = (lambda v: v[ci]) if ci < 2 else (lambda v: math.hypot(v[0], v[1]))
+                want = [None if a[0] is None or b[0] is None else comp(a[0]) - comp(b[0]) for a, b in pv]
+                if len(g_["ok"]) != len(want) or any((x is None) != (y is None) or (x is not None and abs(x - y) > 1e-9) for x, y in zip(g_["ok"], want)):
+                    return f"calculate_error({c}) = {g_['ok'][:6]} is not ground truth minus estimate over the paired rows {want[:6]} (None = NaN: no velocity)"
+    # d. analyze(scene / frame selection): the ALL rates are those of the selected counters
+    labels = ["ALL"] + obs["targets"]
+    for kw, g in zip(case["analyze"], obs["analyze"]):
+        if not kw or set(kw) - {"scene", "frame"} or "error" in g or g["ok"] is None:
+            continue
+        n_gt, n_est, n_tp, n_fp, n_tn, n_fn = selected_counts(kw, frames, obs)
+        if n_gt > 0:
+            want = [n_tp / n_gt, (n_fp / (n_tp + n_fp) if n_tp + n_fp else 0.0), n_tn / n_gt, n_fn / n_gt]
+            if any(abs(a - b) > 1e-12 for a, b in zip(g["ok"]["ratio"][0], want)):
+                return f"analyze({kw}).score[ALL] = {g['ok']['ratio'][0]} but the selected rows give TP/GT, FP/(TP+FP), TN/GT, FN/GT = {want}"
+    # e. frame rates of the per-object tallies: len(status frames) / len(total frames); over a scene: the same on the summed lengths
+    for s_, (sts, rates) in enumerate(zip(obs["status"], obs["status_rates"])):
+        tot = [0, 0, 0, 0, 0]
+        for (u, total, tp, fp, tn, fn), (u2, rr, names) in zip(sts, rates):
+            if u != u2 or names != STATUS:
+                return f"get_status_rates (scene {s_}) of {u}: statuses {names} for uuid {u2}"
+            for name, lst, r in zip(STATUS, (tp, fp, tn, fn), rr):
+                # (a status with no frame is reported as inf today; the documentation is silent, so only non-empty tallies are judged)
+                if lst and (r == "inf" or abs(r - len(lst) / len(total)) > 1e-12):
+                    return f"get_status_rates (scene {s_}) of {u}: {name} rate {r} but {len(lst)} of {len(total)} frames"
+            for i_, lst in enumerate((total, tp, fp, tn, fn)):
+                tot[i_] += len(lst)
+        got = obs["scene_rates"][s_]
+        want = ["inf"] * 4 if tot[0] == 0 else [x / tot[0] for x in tot[1:]]
+        if any((a == "inf") != (b == "inf") or (a != "inf" and abs(a - b) > 1e-12) for a, b in zip(got, want)):
+            return f"get_scene_rates (scene {s_}) = {got} but TP/FP/TN/FN frames over total frames = {want}"
+    if obs["scene_rates"][-1] != ["inf"] * 4:
+        return f"get_scene_rates([]) = {obs['scene_rates'][-1]}, documented: a sequence of inf"
+    return None
 
 
 def wrap_pi(d):
@@ -864,10 +1029,17 @@ class C19(Prop):
     level_note = ("Trusted: Coq kernel + vm_compute; pandas selections modelled as list filters and validated by the correspondence (every row, the counters "
                   "under label/scene/frame/area/status/uuid selections, error arrays, summaries, ratios, confusion matrix, analyze(), status tallies); facts "
                   "(ego-frame x/y/yaw) are read through the public TransformDict.transform and independently compared by the oracle with the generated "
-                  "ego-frame poses; RMS and std are compared squared; pi is the binary64 np.pi.")
+                  "ego-frame poses (also under general 3-D ego rotations); RMS and std are compared squared; pi is the binary64 np.pi. Run-time oracle only "
+                  "(not modelled): get_status_num, velocity columns, status / scene frame rates, clear() followed by add().")
     rule = ("witness + 5 regression inputs + random scenes: 1-2 scenes x 1-3 frames x 0-7 GT (k/8 lattice, FP-labelled GT 12%), ego / map frame with random ego "
             "poses, 1/3/9 divisions over 3 configurations (100x100; 48x96 with objects exactly on and next to the grid lines; distance-filtered with "
             "objects outside every area), 4 critical filters x 3 pass/fail thresholds, 4 counter selections and 3 analyze() selections per case; "
+            "every 4th case (map frame) under a GENERAL ego rotation (roll and pitch; rational points of S^3), so that ego-frame x / y / yaw cannot be had "
+            "from plane shortcuts; a third of the cases in a 'clean' stream (close pairs with equal labels, strays with labels no ground truth has) "
+            "that stays outside the F11 class, so that the ground-truth counters are judged; objects carry velocities (12% None); every 3rd "
+            "analyzer is cleared and filled again before it is read; num_area_division left at its default; oracle-only: get_status_num (string "
+            "and enum status, with selections) = get_num_*, vx / vy / speed rows and their errors (ego-frame cases), analyze(scene / frame) ALL rates "
+            "from the selected counters, GroundTruthStatus.get_status_rates and get_scene_rates = tallied frames over total frames; "
             "non-trivial = at least 2 frames with at least one TP and one FP or FN")
     assumptions = ["pandas indexing semantics are modelled as list filters (validated on every run, not proved)",
                    "conservation of critical ground truths over the four lists (C03) is a hypothesis of the ground-truth-count theorems; it is checked in Coq on every real frame",
@@ -875,7 +1047,7 @@ class C19(Prop):
                    "yaw wrap: both yaws in [-P, P] for the value P > 0 used as pi (binary64 np.pi in the correspondence)",
                    "areas: the model's generate_area_points computes np.arange exactly in Q (compared with the real arrays to 1e-9 on every run); the None-iff-on-a-grid-line clause assumes max_x, max_y > 0",
                    "once-per-frame equivalence: the frames of one get_object_status call have distinct frame numbers (needed for the 'if' direction only)"]
-    not_proved = ["GMM / plotting / summarize_score (metrics are C04/C05)", "vx, vy, speed, nn_plane error columns (no velocities in the generated objects; nn_plane needs corner geometry)",
+    not_proved = ["GMM / plotting / summarize_score (metrics are C04/C05)", "vx, vy, speed (checked by the run-time oracle only, ego-frame cases) and nn_plane error columns (nn_plane needs corner geometry)",
                   "binary64 rounding inside np.arange / the subtraction of yaws (tolerance 1e-9; +-pi ambiguity handled modulo 2 pi); on the real binary64 grid lines (neighbours of max/3) the area of a point within 1 ulp of a line is only validated",
                   "RMS and std themselves (square roots): the theorems are about their squares",
                   "per-label summarize_error rows are characterised only as the summary of the error pairs of the label's row pairs (definitional), not reduced to the frames' items",
